@@ -34,8 +34,16 @@ def configs(tier):
             out.append({"fn": "multi_enc", "w": w, "k": k})
             if w >= 2:
                 out.append({"fn": "ring_enc", "w": w, "k": k})
+    # wide / non-power-of-two sizes beyond the small sweep (each obligation < 3 s; coding at w = 33 and ring_enc at w = 17
+    # are too slow to be stable and stay out, DESIGN 13.1)
+    out += [{"fn": "coding", "w": 16}, {"fn": "coding", "w": 17}]
+    out += [{"fn": "multi_enc", "w": 12, "k": 3}, {"fn": "multi_enc", "w": 17, "k": 2}, {"fn": "multi_enc", "w": 16, "k": 5},
+            {"fn": "ring_enc", "w": 12, "k": 3}, {"fn": "ring_enc", "w": 13, "k": 2}]
     for n in (range(1, 7) if tier == "quick" else range(1, 10)):
         out.append({"fn": "selnet", "n": n, "shape": 2})
+    out += [{"fn": "selnet", "n": 12, "shape": 2}] + ([{"fn": "selnet", "n": 9, "shape": 2}] if tier == "quick" else [])
+    for prio in (False, True):
+        out += [{"fn": "onehotmux", "n": 9, "priority": prio, "default": prio}, {"fn": "onehotmux", "n": 17, "priority": prio, "default": not prio}]
     out.append({"fn": "selnet", "n": 3, "shape": "struct"})
     for n in (range(0, 6) if tier == "quick" else range(0, 9)):
         for prio in (False, True):
@@ -43,7 +51,13 @@ def configs(tier):
                 if n == 0 and not dflt:
                     continue
                 out.append({"fn": "onehotmux", "n": n, "priority": prio, "default": dflt})
-    return out
+    seen, uniq = set(), []
+    for c in out:
+        k = repr(sorted(c.items()))
+        if k not in seen:
+            seen.add(k)
+            uniq.append(c)
+    return uniq
 
 
 def nth_set_spec(bits_in_order):
